@@ -123,19 +123,29 @@ pub fn run(tier: Tier) -> i32 {
         for m in inherits_maps_local(&locs) {
             for pat in tuples(3, 3) {
                 // presence of b in fr, de, it: 0 defined, 1 null, 2 absent
-                let mut cfg = Config::simple("en", &locs);
-                cfg.inherits = m.clone();
-                let mut p = Project::new(cfg);
-                for (li, loc) in locs.iter().enumerate() {
-                    let mut e = vec![("a".to_string(), s(vec![text(&format!("[{loc}.a<]")), fk("b")]))];
-                    match if li == 0 { 0 } else { pat[li - 1] } {
-                        0 => e.push(("b".to_string(), s(vec![text(&format!("[{loc}.b]")), var("x")]))),
-                        1 => e.push(("b".to_string(), Val::Null)),
-                        _ => {}
+                // the referencing key a in fr, de, it: 0 `$t(b)`, 1 plain text, 2 null, 3 absent (quick: 0 / 1)
+                let a_states = tier.pick(2, 4);
+                for apat in tuples(a_states, 3) {
+                    let mut cfg = Config::simple("en", &locs);
+                    cfg.inherits = m.clone();
+                    let mut p = Project::new(cfg);
+                    for (li, loc) in locs.iter().enumerate() {
+                        let mut e = vec![];
+                        match if li == 0 { 0 } else { apat[li - 1] } {
+                            0 => e.push(("a".to_string(), s(vec![text(&format!("[{loc}.a<]")), fk("b")]))),
+                            1 => e.push(("a".to_string(), st(&format!("[{loc}.a.plain]")))),
+                            2 => e.push(("a".to_string(), Val::Null)),
+                            _ => {}
+                        }
+                        match if li == 0 { 0 } else { pat[li - 1] } {
+                            0 => e.push(("b".to_string(), s(vec![text(&format!("[{loc}.b]")), var("x")]))),
+                            1 => e.push(("b".to_string(), Val::Null)),
+                            _ => {}
+                        }
+                        p.set_file(None, loc, e);
                     }
-                    p.set_file(None, loc, e);
+                    jobs.push(("inherits-x-null-target", p));
                 }
-                jobs.push(("inherits-x-null-target", p));
             }
         }
     }
